@@ -123,8 +123,9 @@ Qed.
 Lemma node_get_nattrs g k key : node_get g k key = match nattrs g k with Some a => aget key a | None => None end.
 Proof. unfold node_get, nattrs. destruct (gfind k g); reflexivity. Qed.
 
+(** hcount is left out: the templates of the two descriptions count the hydrogens of a cut end differently *)
 Definition same_payload (C D : cut) (orig : Z -> Z) : Prop :=
-  forall x key v, In x (flat C) -> aget key (payload C x) = Some v -> aget key (payload D (orig x)) = Some v.
+  forall x key v, In x (flat C) -> key <> S "hcount" -> aget key (payload C x) = Some v -> aget key (payload D (orig x)) = Some v.
 
 Theorem share_vs_cut_attrs C D L aa gs' gd orig g' : wf_cut C -> wf_cut D ->
   skeleton C aa gs' -> skeleton D aa gd -> expands C D L orig -> same_payload C D orig ->
@@ -147,7 +148,7 @@ Proof.
   destruct (sk_attrs _ _ _ SkC x Fx) as (_ & _ & _ & PC).
   pose proof (PC key v Hp Nr (fun _ => Nh)) as G1.
   destruct (sk_attrs _ _ _ SkD (orig x) (ex_into _ _ _ _ X x Fx)) as (_ & _ & _ & PD).
-  pose proof (PD key v (SP x key v Fx Hp) Nr (fun _ => Nh)) as G2.
+  pose proof (PD key v (SP x key v Fx Nh Hp) Nr (fun _ => Nh)) as G2.
   split; [|rewrite pi_cut_phi by (try assumption; exact (wc_nodup C WC)); exact G2].
   rewrite node_get_nattrs. apply has_node_keys in Hy. apply has_node_gfind in Hy as [n Gn].
   assert (Na : nattrs g' (phi C x) = Some (na n)) by (unfold nattrs; rewrite Gn; reflexivity).
